@@ -93,6 +93,9 @@ def judge(case, out, expects):
     t = out.tables
     if t and any(t.values()):
         raise Violation("ids.tables-not-empty", f"after every conversation finished the channel/callback tables hold {t}")
+    late = inproc.late_wakeups(out.sched)
+    if late:
+        raise Violation("ids.lost-wakeup", f"a blocked call was never woken, it only returned by its 60 s timeout: {late}")
 
 
 class Sched(Part):
